@@ -73,7 +73,22 @@ pub fn run_history(ops: &[Op], local: &mut Local) -> Check {
         if first_ro && unflushed > 0 {
             made_ro_with_unflushed = true;
         }
-        sim.apply(op)?;
+        if readonly_before && matches!(op, Op::Batch(b) if b.is_empty()) {
+            // "a core without a secret key refuses appends with a not-writable error": the guard of
+            // append_batch comes before any look at the batch, so an empty batch is refused as well
+            let out = sim.exec(op)?;
+            if !matches!(&out, Out::Err(k) if k.starts_with("NotWritable")) {
+                return Err(Failure::new(
+                    "empty-append-on-readonly-not-refused",
+                    format!("op {k}: append_batch([]) on a core without secret key returned {out:?} instead of the not-writable error"),
+                ));
+            }
+            sim.check_and_advance(op, &out)?;
+            sim.step += 1;
+            local.class("empty_batch_on_read_only_core_refused");
+        } else {
+            sim.apply(op)?;
+        }
         let ctxt = format!("after op {k} {op:?}");
         if let (Some(bf), Some(bo)) = (before_files, before_obs) {
             // (1) refused append / second make_read_only changes nothing
@@ -280,10 +295,10 @@ pub fn run(ctx: &Ctx) {
     let n = crate::props::c01::seq_count(9, l);
     indexed_stage(ctx, "exhaustive", n, |i| crate::props::c01::seq_at(9, i).into_iter().map(alphabet9).collect::<Vec<Op>>(), |ops, local| run_history(ops, local));
     ctx.extra("exhaustive_stage", json!({"alphabet": ALPHABET9, "max_len": l, "sequences": n, "exhaustive": true}));
-    random_stage(ctx, "random", ctx.tier.pick(8_000, 600_000), history_strategy, |ops: &Vec<Op>, local| run_history(ops, local));
-    random_stage(ctx, "replicas", ctx.tier.pick(1_500, 100_000), || session_strategy(24), |ops: &Vec<SOp>, local| run_replica(ops, local));
+    random_stage(ctx, "random", ctx.tier.pick(40_000, 600_000), history_strategy, |ops: &Vec<Op>, local| run_history(ops, local));
+    random_stage(ctx, "replicas", ctx.tier.pick(6_000, 100_000), || session_strategy(24), |ops: &Vec<SOp>, local| run_replica(ops, local));
     let seed = ctx.seed;
-    random_stage(ctx, "crash-in-make-read-only", ctx.tier.pick(600, 40_000), crash_history_strategy, move |ops: &Vec<Op>, local| run_crash(ops, seed, local));
+    random_stage(ctx, "crash-in-make-read-only", ctx.tier.pick(2_400, 40_000), crash_history_strategy, move |ops: &Vec<Op>, local| run_crash(ops, seed, local));
     let _ = Blk { len: 0, fill: 0 };
 }
 
